@@ -9,7 +9,7 @@ ENVS = [{"HOME": "/h", "a": "w"}, {"HOME": "/h/é", "a": "x/y"}, {"a": "w"}, {"H
 def run(tier, seed):
     out = Outcome("C05", tier, seed)
     out.add_mc("MC_Abs", vlib.tlc_mc("MC_Abs", workers=8))
-    env_runs(out, "abs", ENVS, ["--tier", tier, "--seed", str(seed)])
+    env_runs(out, "abs", ENVS, ["--tier", tier, "--seed", str(seed), "--rehome", "/h2/x"])
     # second sentence of C05: every other method interprets its path arguments through the same resolution - histories in
     # which every argument is respelled (relative to the cwd, unclean, ~, ${HOME}, file://) are judged by the reference,
     # which resolves arguments with PathLex!Abs: a method that skips the resolution is rejected
